@@ -114,22 +114,6 @@ def hasSuffix (s p : Bytes) : Bool := s.length ≥ p.length && s.drop (s.length 
 
 namespace Heap
 
-/-- left fold over a list with the heap threaded through and early exit on error/panic -/
-def foldH {α β : Type} (f : Heap → α → β → Heap × Outcome β) : Heap → List α → β → Heap × Outcome β
-  | h, [], acc => (h, .ok acc)
-  | h, x :: xs, acc => match f h x acc with
-    | (h1, .ok acc') => foldH f h1 xs acc'
-    | (h1, .err e) => (h1, .err e)
-    | (h1, .panic s) => (h1, .panic s)
-
-/-- the same for pure steps -/
-def foldO {α β : Type} (f : α → β → Outcome β) : List α → β → Outcome β
-  | [], acc => .ok acc
-  | x :: xs, acc => match f x acc with
-    | .ok acc' => foldO f xs acc'
-    | .err e => .err e
-    | .panic s => .panic s
-
 /-- `recursiveChildren(node)`: all container descendants, level by level as the Go recursion lists them -/
 def recursiveChildren : Nat → Heap → Id → Outcome (List Id)
   | 0, _, _ => .panic "recursiveChildren: out of fuel"
